@@ -88,10 +88,19 @@ def main():
                 sid = q.get_nowait()
             except queue.Empty:
                 return
-            r = run_one(k, sid, checks)
+            meta_p = os.path.join(VERIF, "seeded", sid, "meta.json")
+            my_checks = checks
+            if os.environ.get("PARTRIAL_MODE") == "own_prev":
+                # final confirmation run: the property's own check + every check that ever reported this change
+                m0 = json.load(open(meta_p))
+                my_checks = sorted(set([m0["breaks_property"]] + m0.get("detected_by", []) + m0.get("first_run_detected_by", [])
+                                       + (m0.get("round1", {}).get("detected_by") or [])))
+            r = run_one(k, sid, my_checks)
             with lock:
-                meta_p = os.path.join(VERIF, "seeded", sid, "meta.json")
                 meta = json.load(open(meta_p)) if os.path.exists(meta_p) else {}
+                if os.environ.get("PARTRIAL_MODE") == "own_prev" and "error" not in r:
+                    # results of this run only
+                    meta["checks_run"] = {}
                 if "error" in r:
                     meta["trial_error"] = r["error"]
                     print(sid, "ERROR", r["error"][:200], flush=True)
